@@ -25,6 +25,9 @@ MC_CONSTS = {
                            MultCounts="NoMult", MaxDepth=2, MaxOpen=2, EmitAll="FALSE"),
     "quick_mult": dict(MaxLen=7, NodeToks="Nodes2", SymToks="SymQuick", RingToks="Rings1",
                        MultCounts="Mult2", MaxDepth=2, MaxOpen=1, EmitAll="FALSE"),
+    # one node name, no symbols: deeper nesting and a count of 3 (third-copy and node-0 anchor defects lived here)
+    "quick_mult_deep": dict(MaxLen=9, NodeToks="Nodes1", SymToks="NoSym", RingToks="NoRings",
+                            MultCounts="Mult3", MaxDepth=2, MaxOpen=1, EmitAll="FALSE"),
     "thorough_mult": dict(MaxLen=8, NodeToks="Nodes2", SymToks="SymQuick", RingToks="Rings1",
                           MultCounts="Mult13", MaxDepth=2, MaxOpen=1, EmitAll="FALSE"),
     "quick_fault": dict(MaxLen=4, NodeToks="NodesF", SymToks="SymOne", RingToks="Rings2",
@@ -255,6 +258,8 @@ def run_c05(tier):
                   "bond symbol / ring / annotation / nesting")
     key = "quick_mult" if tier == "quick" else "thorough_mult"
     toks, r = mc_run(check, key)
+    deep, r2 = mc_run(check, "quick_mult_deep")
+    toks = toks + deep
     check.exhaustive = True
     nsim = 200 if tier == "quick" else 2000
     sim, _ = mc_run(check, "sim_mult", invariants=False, simulate=f"num={nsim}", depth=24, seed=common.SEED + 2)
